@@ -4,7 +4,7 @@ rnd = sys.argv[1]
 rows = []
 for d in sorted(os.listdir("/verif/seeded")):
     mp = "/verif/seeded/%s/meta.json" % d
-    if not os.path.exists(mp):
+    if not os.path.exists(mp) or d.startswith("benign-"):
         continue
     m = json.load(open(mp))
     if str(m.get("round", "1")) != rnd:
